@@ -9,6 +9,10 @@ Complete small-scope input enumeration on the real code, in five layers:
      block total from the chromosome count to the marker count and every per-chromosome block
      count vector.
   B  haplobin_bounds on every non-decreasing label sequence up to 6 markers.
+  R  rounding sweep of haplobin's bin bounds: chromosome spans {k/10 : k=1..40} u {1..70}, start 0 and
+     two non-zero starts, every block count 2..7, markers at start, tip and 7 interior points, as the
+     only and as the second chromosome: every marker labelled in range, labels monotone, first / last
+     marker in the first / last block.
   H  the four haplotype-matrix builders (core.util.haplo.haplomat and the _calc_haplomat of the
      OHV / OPV / GenotypeBuilder problem classes) on every layout x total with a basis of
      genotypes (unit vectors, all-ones, staircase) and provenance-coded effects (2^j), with
@@ -188,7 +192,7 @@ def _plan(tier):
 
 def shards(tier, seed):
     P, H, V, Lp = _plan(tier)
-    out = [("B",)]
+    out = [("B",)] + [("R", i, i + 22) for i in range(0, 110, 22)]
     for lens in P:
         n = len(layouts(lens))
         step = 3000 if tier == "quick" else 12000
@@ -340,6 +344,83 @@ def run_B(spec, ctx):
                     ctx.traces += 1
                     ctx.outcome(("B", tuple(rn)))
     ctx.flag("B")
+
+
+# ---------------------------------------------------------------------------- layer R (rounding sweep of the bin bounds)
+R_STARTS = [(0.0, 0.3, 5.0), (0.0, 0.7, 11.0), (0.0, 0.1, 3.0)]     # chromosome start positions (seed rotates the non-zero ones)
+
+
+class FreeLayout:
+    """A layout given by explicit positions per chromosome (same attributes as Layout)."""
+    def __init__(self, chroms):
+        self.lens = tuple(len(c) for c in chroms)
+        self.p, self.c = sum(self.lens), len(chroms)
+        self.genpos = numpy.array([x for c in chroms for x in c], dtype="float64")
+        self.sp = list(itertools.accumulate(self.lens))
+        self.st = [0] + self.sp[:-1]
+        self.stix, self.spix = numpy.array(self.st, dtype="int64"), numpy.array(self.sp, dtype="int64")
+        self.clen = numpy.array(self.lens, dtype="int64")
+
+
+def r_spans():
+    return [k / 10 for k in range(1, 41)] + [float(k) for k in range(1, 71)]
+
+
+def r_chrom(start, span):
+    """Markers at the start, the tip and seven interior points of a chromosome of the given span."""
+    tip = start + span
+    return [start] + [start + span * j / 8 for j in range(1, 8)] + [tip]
+
+
+def r_case(ctx, case):
+    start, span, nhap, second = case["start"], case["span"], case["nhap"], case["second"]
+    chroms = ([[0.0, 1.0]] if second else []) + [r_chrom(start, span)]
+    lo = FreeLayout(chroms)
+    nh = ((1,) if second else ()) + (nhap,)
+    nhv = numpy.array(nh, dtype="int64")
+    with POISON:
+        hb = LH.haplobin(nhv, lo.genpos.copy(), lo.stix.copy(), lo.spix.copy())
+    ctx.transitions += 1
+    labels = hb.tolist()
+    total = sum(nh)
+    desc = f"chromosome positions {chroms[-1]} ({'second' if second else 'only'} chromosome) cut into {nhap} blocks: labels {labels}"
+    for j, v in enumerate(labels):
+        if not (isinstance(v, int) and 0 <= v < total):
+            raise Violation(HAPLO + "haplobin:unassigned-marker", f"{desc}: marker {j} carries {v}, not a block number in [0,{total}) "
+                                                                  f"(uninitialised label; numpy.empty poisoned)")
+    if any(labels[j] > labels[j + 1] for j in range(len(labels) - 1)):
+        raise Violation(HAPLO + "haplobin:not-monotone", desc)
+    if labels[-1] != total - 1 or labels[lo.st[-1]] != total - nhap:
+        raise Violation(HAPLO + "haplobin:tip-marker-block",
+                        f"{desc}: the first / last marker of the chromosome must lie in its first / last block ({total - nhap} / {total - 1})")
+    return labels
+
+
+def run_R(spec, ctx):
+    """For every span in {k/10: k=1..40} u {1..70}, start 0 and two non-zero starts, every block count 2..7, as the only and as
+    the second chromosome: the bounds of the equal-width bins must cover the chromosome tip whatever the rounding."""
+    _, a, b = spec
+    starts = R_STARTS[ctx.seed % 3]
+    ctx.flag("R")
+    for si, span in enumerate(r_spans()[a:b]):
+        for start in starts:
+            for nhap in range(2, 8):
+                for second in (False, True):
+                    case = dict(layer="R", start=start, span=span, nhap=nhap, second=second, seed=ctx.seed)
+                    ctx.evaluations += 1
+                    ctx.count("R:cases")
+                    sid = ("R", a + si, start, nhap, second)
+                    ctx.state(sid)
+                    ctx.nontriv(sid)
+                    ok, labels = guard_case(ctx, lambda: r_case(ctx, case), case, HAPLO + "haplobin:")
+                    if ok:
+                        ctx.traces += 1
+                        ctx.outcome(("R", tuple(labels)))
+                    # input-side: does start + nhap * ((tip - start) / nhap) round below the tip?  (the case a bound computed by
+                    # multiplication would miss)
+                    tip = start + span
+                    if start + nhap * ((tip - start) / nhap) < tip:
+                        ctx.count("R:cases-where-multiplied-bound-rounds-below-the-tip")
 
 
 # ---------------------------------------------------------------------------- layer H
@@ -954,7 +1035,7 @@ def run_shard(spec, ctx):
         "effects_alphabet": list(EFF[ctx.seed % 3]), "ploidy": 2, "L_taxa": 3, "L_nparent": 2, "V_nparent": [1, 2, 3],
         "V_mem_chunks": ["None", 1, 2, 1024],
     })
-    {"P": run_P, "B": run_B, "H": run_H, "V": run_V, "L": run_L}[spec[0]](spec, ctx)
+    {"P": run_P, "B": run_B, "R": run_R, "H": run_H, "V": run_V, "L": run_L}[spec[0]](spec, ctx)
 
 
 def finalize(ctx, tier, seed):
@@ -985,6 +1066,8 @@ def finalize(ctx, tier, seed):
     # exact size of the partition space: nothing silently skipped
     nlay = lambda lens: math.prod(math.comb(L + NGRID - 1, NGRID - 1) for L in lens)
     assert c.get("B:cases", 0) == sum(2 * 3 ** (L - 1) for L in range(1, 7)), c.get("B:cases")
+    assert "R" in ctx.flags and c.get("R:cases", 0) == 110 * 3 * 6 * 2, c.get("R:cases")
+    assert c.get("R:cases-where-multiplied-bound-rounds-below-the-tip", 0) >= 20, c.get("R:cases-where-multiplied-bound-rounds-below-the-tip")
     assert c.get("V:histories", 0) >= 3 * sum(v_space(name, seed)[3] for (name,) in V), c.get("V:histories")
     assert c.get("P:apportion-cases", 0) == sum(nlay(l) * (sum(l) - len(l) + 1) for l in P), c.get("P:apportion-cases")
     assert c.get("P:bin-cases", 0) == sum(nlay(l) * math.prod(l) for l in P), c.get("P:bin-cases")
@@ -1003,6 +1086,8 @@ def replay(case, ctx):
     elif lay == "P-bin":
         lo = Layout(tuple(tuple(ch) for ch in case["lay"]), seed)
         ctx.guard(lambda: p_haplobin(ctx, lo, tuple(case["nhap"]), case), case=case, sig_prefix=HAPLO + "haplobin:")
+    elif lay == "R":
+        ctx.guard(lambda: r_case(ctx, case), case=case, sig_prefix=HAPLO + "haplobin:")
     elif lay == "B":
         ctx.guard(lambda: p_bounds(ctx, list(case["labels"])), case=case, sig_prefix=HAPLO + "haplobin_bounds:")
     elif lay == "H":
